@@ -248,4 +248,29 @@ PROPS = {
              "bound": "REF_UNIT chains of length 0..=3 not anchored in any COMPU_METHOD; cleanup applied twice", "timeout": 200, "extra_modules": ["tokenizer"]},
         ],
     },
+    "C09": {
+        "files": ["a2lfile/src/merge.rs", "a2lfile/src/module.rs", "a2lfile/src/itemlist.rs", "a2lfile/src/lib.rs"],
+        "trusted": T_STD,
+        "assumptions": ["modules are built by loading template texts through the real parser inside the symbolic executor",
+                        "oracle: after merging B into an A that conflicts on every name, every element of B must be present under NAME.MERGE and be equal to B's element with every reference rewritten to TARGET.MERGE (comparison of whole elements, so every reference field of the populated sites is covered at once)"],
+        "jobs": [
+            {"engine": "E2", "module": "lib", "harness": "h_merge_scenarios", "msg_prefix": "C09", "functions": ["A2lFile::merge_modules", "merge::merge_modules", "merge::merge_*", "merge::rename_*", "merge::calculate_item_actions", "merge::make_unique_name", "checker::check"],
+             "bound": "5 scenarios on a template module with 30+ populated reference sites: all names conflict / identical copy / disjoint names / into empty / from empty", "timeout": 600, "extra_modules": ["tokenizer"], "validate": 5},
+            {"engine": "E2", "module": "lib", "harness": "h_merge_named_union", "msg_prefix": "C09", "functions": ["merge::merge_function", "merge::merge_group", "merge::merge_user_rights", "merge::merge_variant_coding", "merge::rename_objects"],
+             "bound": "FUNCTION / GROUP / USER_RIGHTS / VARIANT_CODING from B referring to objects that are renamed by the merge (2 scenarios)", "timeout": 600, "extra_modules": ["tokenizer"], "validate": 2},
+        ],
+    },
+    "C08": {
+        "files": ["a2lfile/src/merge.rs", "a2lfile/src/module.rs", "a2lfile/src/itemlist.rs", "a2lfile/src/lib.rs"],
+        "trusted": T_STD,
+        "assumptions": ["same harnesses as C09; only the conservation / uniqueness assertions (messages starting with C08) count here"],
+        "jobs": [
+            {"engine": "E2", "module": "lib", "harness": "h_merge_scenarios", "msg_prefix": "C08", "functions": ["A2lFile::merge_modules", "merge::merge_modules", "merge::calculate_item_actions", "merge::make_unique_name", "module::Module::objects/compu_tabs/typedefs"],
+             "bound": "5 scenarios: all names conflict / identical copy / disjoint names / into empty / from empty", "timeout": 600, "extra_modules": ["tokenizer"], "validate": 5},
+            {"engine": "E2", "module": "lib", "harness": "h_merge_unique_name", "msg_prefix": "C08", "functions": ["merge::make_unique_name", "merge::calculate_item_actions", "merge::merge_unit"],
+             "bound": "UNIT namespace with pre-existing X.MERGE / X.MERGE2 names in A and/or B (symbolic presence bits), conflicting X", "timeout": 400, "extra_modules": ["tokenizer"]},
+            {"engine": "E2", "module": "lib", "harness": "h_merge_cross_kind", "msg_prefix": "C08", "functions": ["merge::merge_objects", "merge::merge_compu_tab", "module::Module::objects", "module::Module::compu_tabs", "module::Module::typedefs"],
+             "bound": "same name used by elements of different kinds of one namespace in A and B (object kinds, table kinds, typedef kinds; symbolic kind choice)", "timeout": 400, "extra_modules": ["tokenizer"]},
+        ],
+    },
 }
